@@ -15,7 +15,8 @@
          space.rs]: the acknowledged numbers are collected into a Vec (one cell each) and
          on_packet_acked is called per number, each call scanning the window up to that number;
    * RcvdJournal::{decode_pn, on_rcvd_pn} over IndexDeque::insert (Model.RcvdJournal);
-   * RemoteCids / LocalCids (Model.C04Cid);
+   * RemoteCids: the shared model Model.RemoteCid in the variant of the repaired code (active IDs
+     counted after the frame is processed), with the cost functions of Model.C04Cid; LocalCids: Model.C04Cid;
    * stream frames through the whole DataStreams model (Model.StreamCtl, variant `fixed`), cost =
      streams created by the implicit open of lower-numbered streams.
 
@@ -24,13 +25,14 @@
    legitimate history and for cheap probes) are the existing list models.  Proofs/C04.v shows the
    cost counts what those models do (cells appended, numbers expanded).
 
-   Three configuration bits select the code variant and are read from the Rust source by the
+   Four configuration bits select the code variant and are read from the Rust source by the
    orchestrator: [ord] (true: the dispatcher validates the ACK against the sent journal before
    the controller and the received journal see it — fix of F22), [f7] (true: the parser rejects
-   negative packet numbers — fix of F7), [f8] (true: `largest >= next` is rejected — fix of F8). *)
+   negative packet numbers — fix of F7), [f8] (true: `largest >= next` is rejected — fix of F8),
+   [f55] (true: RETIRE_CONNECTION_ID of a never-issued number is a PROTOCOL_VIOLATION — fix of F55). *)
 From Coq Require Import List ZArith NArith Bool.
 From GQ Require Import Model.RcvdJournal Model.SentJournal Model.C04Cid.
-From GQ Require Lib.Wire Lib.FrameTypes Model.Frames Model.StreamCtl Model.Sid.
+From GQ Require Lib.Wire Lib.FrameTypes Model.Frames Model.StreamCtl Model.Sid Model.RemoteCid.
 Import ListNotations.
 Local Open Scope Z_scope.
 
@@ -203,10 +205,10 @@ Definition ds_size (s : StreamCtl.ds) : Z :=
 
 (* ------------------------------------------------------------------ the stream `handlers` *)
 Record hst := mkh {
-  h_ord : bool; h_f7 : bool; h_f8 : bool;
+  h_ord : bool; h_f7 : bool; h_f8 : bool; h_f55 : bool;
   h_now : Z;
   h_rj : rjournal; h_sj : sjournal; h_lrcvd : option Z;
-  h_rc : rcids; h_lc : lcids; h_lset : bool;
+  h_rc : RemoteCid.rcids; h_lc : lcst; h_lset : bool;
   h_ds : option StreamCtl.ds;
   h_closed : bool }.
 
@@ -218,33 +220,33 @@ Definition h_init (cfg : list Z) : hst :=
   let msu := g 3%nat 3 in
   let loc := [msb; msu; SD; SD; SD; SD] in
   let z6 := [0; 0; 0; 0; 0; 0] in
-  mkh (negb (g 0%nat 1 =? 0)) (negb (g 4%nat 1 =? 0)) (negb (g 5%nat 1 =? 0))
+  mkh (negb (g 0%nat 1 =? 0)) (negb (g 4%nat 1 =? 0)) (negb (g 5%nat 1 =? 0)) (negb (g 6%nat 1 =? 0))
       0 (rj_new (Some 25)) sj_new None
-      (rc_init (g 1%nat 2)) lc_init false
+      (rc_init (Z.to_N (g 1%nat 2))) lc_init false
       (StreamCtl.cfg_init ([1; 0; 0] ++ loc ++ z6 ++ z6))
       false.
 
 Definition with_closed (s : hst) (c : bool) : hst :=
-  mkh (h_ord s) (h_f7 s) (h_f8 s) (h_now s) (h_rj s) (h_sj s) (h_lrcvd s) (h_rc s) (h_lc s) (h_lset s) (h_ds s) c.
+  mkh (h_ord s) (h_f7 s) (h_f8 s) (h_f55 s) (h_now s) (h_rj s) (h_sj s) (h_lrcvd s) (h_rc s) (h_lc s) (h_lset s) (h_ds s) c.
 Definition with_j (s : hst) (rj : rjournal) (sj : sjournal) : hst :=
-  mkh (h_ord s) (h_f7 s) (h_f8 s) (h_now s) rj sj (h_lrcvd s) (h_rc s) (h_lc s) (h_lset s) (h_ds s) (h_closed s).
+  mkh (h_ord s) (h_f7 s) (h_f8 s) (h_f55 s) (h_now s) rj sj (h_lrcvd s) (h_rc s) (h_lc s) (h_lset s) (h_ds s) (h_closed s).
 Definition with_lrcvd (s : hst) (pn : Z) : hst :=
-  mkh (h_ord s) (h_f7 s) (h_f8 s) (h_now s) (h_rj s) (h_sj s)
+  mkh (h_ord s) (h_f7 s) (h_f8 s) (h_f55 s) (h_now s) (h_rj s) (h_sj s)
       (Some (match h_lrcvd s with Some l => Z.max l pn | None => pn end))
       (h_rc s) (h_lc s) (h_lset s) (h_ds s) (h_closed s).
-Definition with_rc (s : hst) (rc : rcids) : hst :=
-  mkh (h_ord s) (h_f7 s) (h_f8 s) (h_now s) (h_rj s) (h_sj s) (h_lrcvd s) rc (h_lc s) (h_lset s) (h_ds s) (h_closed s).
-Definition with_lc (s : hst) (lc : lcids) (set : bool) : hst :=
-  mkh (h_ord s) (h_f7 s) (h_f8 s) (h_now s) (h_rj s) (h_sj s) (h_lrcvd s) (h_rc s) lc set (h_ds s) (h_closed s).
+Definition with_rc (s : hst) (rc : RemoteCid.rcids) : hst :=
+  mkh (h_ord s) (h_f7 s) (h_f8 s) (h_f55 s) (h_now s) (h_rj s) (h_sj s) (h_lrcvd s) rc (h_lc s) (h_lset s) (h_ds s) (h_closed s).
+Definition with_lc (s : hst) (lc : lcst) (set : bool) : hst :=
+  mkh (h_ord s) (h_f7 s) (h_f8 s) (h_f55 s) (h_now s) (h_rj s) (h_sj s) (h_lrcvd s) (h_rc s) lc set (h_ds s) (h_closed s).
 Definition with_ds (s : hst) (d : StreamCtl.ds) : hst :=
-  mkh (h_ord s) (h_f7 s) (h_f8 s) (h_now s) (h_rj s) (h_sj s) (h_lrcvd s) (h_rc s) (h_lc s) (h_lset s) (Some d) (h_closed s).
+  mkh (h_ord s) (h_f7 s) (h_f8 s) (h_f55 s) (h_now s) (h_rj s) (h_sj s) (h_lrcvd s) (h_rc s) (h_lc s) (h_lset s) (Some d) (h_closed s).
 Definition with_now (s : hst) (t : Z) : hst :=
-  mkh (h_ord s) (h_f7 s) (h_f8 s) t (h_rj s) (h_sj s) (h_lrcvd s) (h_rc s) (h_lc s) (h_lset s) (h_ds s) (h_closed s).
+  mkh (h_ord s) (h_f7 s) (h_f8 s) (h_f55 s) t (h_rj s) (h_sj s) (h_lrcvd s) (h_rc s) (h_lc s) (h_lset s) (h_ds s) (h_closed s).
 
 (* the state the endpoint already holds, in cells *)
 Definition h_size (s : hst) : Z :=
   r_len (h_rj s) + Z.of_nat (length (r_incl (h_rj s))) + sj_len (h_sj s)
-  + rc_size (h_rc s) + lc_len (h_lc s)
+  + Z.of_N (rc_size (h_rc s)) + lc_len (h_lc s)
   + match h_ds s with Some d => ds_size d | None => 0 end.
 
 (* result of delivering one frame / one hostile input: words of the observation, the cost, the cells
@@ -288,14 +290,23 @@ Definition frame_outcome (s : hst) (cc_len : Z) (bs : list Z) : outcome :=
         else mko [1; ao_err o; ao_ticks o; ao_collected o; ao_fed o] (ao_cost o) (ao_cells o) 0
                  (negb (ao_err o =? 0)) (ao_drv o)
     | Frames.NewConnectionId seq rpt _ _ =>
-        if rc_new_panics (h_rc s) seq rpt then mko [PANIC_W] 1 0 0 true 0
+        let rc := h_rc s in
+        let sq := Z.to_N seq in
+        let rp := Z.to_N rpt in
+        let drv := Z.of_N (rc_new_drv rc sq rp) in
+        if rc_new_panics rc sq rp then mko [PANIC_W] 1 0 0 true 0
+        else if T_EXCEED <? drv then
+          (* predicted to hit the resource limit: only the arithmetic part is evaluated *)
+          mko [2] drv drv 0 false drv
         else
-          let e := rc_new_err (h_rc s) seq rpt in
-          mko [2; e; rc_new_frames (h_rc s) seq rpt] (rc_new_cost (h_rc s) seq rpt)
-              (rc_new_cells (h_rc s) seq rpt + rc_new_frames (h_rc s) seq rpt) 0 (negb (e =? 0))
-              (rc_new_cells (h_rc s) seq rpt + rc_new_frames (h_rc s) seq rpt)
+          (* the frame is processed (cells appended, RETIRE frames queued) BEFORE the active IDs are
+             counted: the frames are observed also when the verdict is CONNECTION_ID_LIMIT_ERROR *)
+          let '(_, fr, res) := rc_recv rc sq rp in
+          let e := rc_res_err res in
+          let nf := Z.of_nat (length fr) in
+          mko [2; e; nf] (Z.of_N (rc_new_cost rc sq rp)) (Z.of_N (rc_new_cells rc sq) + nf) 0 (negb (e =? 0)) drv
     | Frames.RetireConnectionId seq =>
-        let e := lc_retire_err false (h_lc s) seq in
+        let e := lc_retire_err (h_f55 s) (h_lc s) seq in
         mko [3; e; if e =? 0 then lc_retire_frames (h_lc s) seq else 0]
             (if e =? 0 then lc_retire_cost (h_lc s) seq else 1) 0 0 (negb (e =? 0)) 0
     | _ =>
@@ -319,9 +330,9 @@ Definition frame_apply (s : hst) (bs : list Z) : hst :=
         if negb (match t with FrameTypes.TAck _ => true | _ => false end) then s else
         let '(rj, sj) := apply_ack (h_ord s) (h_f8 s) (h_now s) (h_rj s) (h_sj s) (mkack l d fr rs) in
         with_j s rj sj
-    | Frames.NewConnectionId seq rpt _ _ => with_rc s (rc_new_apply (h_rc s) seq rpt)
+    | Frames.NewConnectionId seq rpt _ _ => with_rc s (fst (fst (rc_recv (h_rc s) (Z.to_N seq) (Z.to_N rpt))))
     | Frames.RetireConnectionId seq =>
-        if lc_retire_err false (h_lc s) seq =? 0 then with_lc s (lc_retire_apply (h_lc s) seq) (h_lset s) else s
+        if lc_retire_err (h_f55 s) (h_lc s) seq =? 0 then with_lc s (lc_retire_apply (h_lc s) seq) (h_lset s) else s
     | _ =>
         match stream_op f, h_ds s with
         | Some op, Some d => with_ds s (fst (StreamCtl.ds_step StreamCtl.fixed d op))
@@ -437,5 +448,5 @@ Fixpoint h_run (s : hst) (l : list (N * list Z)) : list (list Z) :=
   | (t, a) :: rest => let '(s', obs) := h_step s t a in obs :: h_run s' rest
   end.
 
-(* cfg = [ord; rcid_limit; msb; msu; f7; f8] *)
+(* cfg = [ord; rcid_limit; msb; msu; f7; f8; f55] *)
 Definition run_handlers (cfg : list Z) (l : list (N * list Z)) : list (list Z) := h_run (h_init cfg) l.
